@@ -48,10 +48,13 @@ def h_promax(B, p=3, m=2, power=2, cplx=False):
         B.eq("power 1: phi == I", phi, np.eye(m))
 
 
-def h_rotator(B, cls="EOF", n=4, p=3, k=2, power=1, flags=None, refit=False):
+def h_rotator(B, cls="EOF", n=4, p=3, k=2, power=1, flags=None, refit=False, scale=None):
     flags = dict(flags or {})
     cplx = cls == "ComplexEOF"
     X = da2d(B, "x", n, p, cplx)
+    if scale:
+        X = X * float(scale)  # same symbolic generality; the WITNESS has the amplitude of a field in small (large) units
+        X.name = "v_x"
     base = M.single(cls, n_modes=p if n > p else k, solver="full", **flags).fit(X, "time")
     if refit:
         # the rotator object has been fitted on another model before: everything below must hold for its second fit as well
@@ -113,6 +116,10 @@ def configs(tier):
         for pw in (1, 2):
             add("h_rotator", f"{cls}Rotator|power{pw}", cls=cls, power=pw)
     add("h_rotator", "EOFRotator|power1|standardize", cls="EOF", power=1, flags={"standardize": True})
+    # absolute floors / cut-offs somewhere in the normalisation only bind for fields in small (large) units
+    add("h_rotator", "EOFRotator|power1|witness amplitude 1e-5", cls="EOF", power=1, scale=1e-5)
+    add("h_rotator", "EOFRotator|power2|witness amplitude 1e-5", cls="EOF", power=2, scale=1e-5)
+    add("h_rotator", "EOFRotator|power1|witness amplitude 1e5", cls="EOF", power=1, scale=1e5)
     # three rotated modes: the re-ordering after rotation can be any of the 6 permutations (incl. the two 3-cycles)
     add("h_rotator", "EOFRotator|power1|n5p3k3", cls="EOF", power=1, n=5, p=3, k=3)
     add("h_rotator", "EOFRotator|power1|n5p3k3|second fit of the rotator object", cls="EOF", power=1, n=5, p=3, k=3, refit=True)
